@@ -273,7 +273,9 @@ func H_C11_verify() {
 	// a zero time on the wire makes the library substitute its own clock (tsigBuffer); that case is outside the claim
 	vAssume(tm != 0)
 	err := tsigVerify(msg, tsigHMACProvider(secret), refHex(req), timers, now)
-	vObserve("verify", what, err) // ("same" depends on MAC octets, which differ between the ideal stub and the real HMAC)
+	if what != 6 { // (a replaced MAC octet: the outcome depends on MAC octets, which differ between ideal stub and real HMAC)
+		vObserve("verify", what, err)
+	}
 	dt := now - tm
 	if now < tm {
 		dt = tm - now
